@@ -2,12 +2,15 @@
    Statements only.  Sync s: a track format references S exactly when S lists it, and S lists it once.
 
    Full statement aimed at:   forall P ops, Sync (run P ops empty_state)
-   (every history, calls that throw included).  Proved below for every call except that a *failing*
-   AudioStreamFormat::addReference(track) / AudioTrackFormat::setReference(stream) is not covered:
-   between the two writes of those calls the model passes through an unsynchronised state, and showing
-   that no exception can be raised there needs the parent/listing invariant of C03.  That half is
-   explored by the correspondence and the oracle (which check Sync after calls that throw, too). *)
-From Adm Require Import Heap.Exec gen.PlansGen Heap.PlanChecks Heap.Frame Heap.Writes Heap.Sync.
+   (every history, calls that throw included).  Proved: (1) every call, every outcome, from any synchronised state,
+   except a *failing* AudioStreamFormat::addReference(track) / AudioTrackFormat::setReference(stream) (theorems
+   _partial, Heap/Sync.v); (2) those two failing calls as well, from every state that is also well-formed in the sense
+   of C03 (Heap/SyncFull.v: from a well-formed state the linking calls can only fail before their first write, because
+   after autoParent has succeeded every later step is total) - hence Sync after every history of successful calls
+   followed by one call with any outcome (C12_after_history).  Still open: continuing after a failed call whose
+   partial effects broke well-formedness (a Document::add that throws half-way) and then failing a linking call;
+   that case is explored by the differential run, whose oracle checks Sync after every call, throwing ones included. *)
+From Adm Require Import Heap.Exec gen.PlansGen Heap.PlanChecks Heap.Frame Heap.Writes Heap.Sync Heap.WF Heap.SyncFull.
 
 Theorem C12_plans_recognised : plans_problems = [] /\ add_plan_complete gen_plans = true /\ plans_typed gen_plans = true.
 Proof. exact (conj plans_recognised (conj gen_add_plan_complete gen_plans_typed)). Qed.
@@ -50,3 +53,29 @@ Print Assumptions C12_set_reference_ok.
 Theorem C12_add_reference_ok : forall P st t s s' b, Sync s -> stream_add_track P st t s = (s', inl b) -> Sync s'.
 Proof. exact stream_add_track_ok. Qed.
 Print Assumptions C12_add_reference_ok.
+
+(* the linking half when the call throws: from a well-formed state nothing was written *)
+Theorem C12_add_reference_failure : forall P, add_plan_complete P = true -> forall st t s s' e, WF s ->
+  kindof s st = Some KStream -> kindof s t = Some KTrack -> stream_add_track P st t s = (s', inr e) ->
+  views s' (TS s) (ST s).
+Proof. exact stream_add_track_failure. Qed.
+Print Assumptions C12_add_reference_failure.
+
+Theorem C12_set_reference_failure : forall P, add_plan_complete P = true -> forall t st s s' e, WF s ->
+  kindof s t = Some KTrack -> kindof s st = Some KStream -> track_set_stream P t st s = (s', inr e) ->
+  views s' (TS s) (ST s).
+Proof. exact track_set_stream_failure. Qed.
+Print Assumptions C12_set_reference_failure.
+
+(* every call, every outcome, from a well-formed synchronised state *)
+Theorem C12_step : forall P, add_plan_complete P = true -> forall o s s' r, WF s -> Sync s -> exec P o s = (s', r) -> Sync s'.
+Proof. exact sync_step_full. Qed.
+Print Assumptions C12_step.
+
+(* after any history of successful calls, one more call - whatever its outcome - leaves the references synchronised *)
+Theorem C12_after_history : forall ops s o s' r, run_succ gen_plans ops empty_state = Some s ->
+  exec gen_plans o s = (s', r) -> Sync s'.
+Proof.
+  exact (sync_after_history gen_plans gen_add_plan_complete gen_remove_plan_complete gen_plans_typed eq_refl).
+Qed.
+Print Assumptions C12_after_history.
